@@ -68,6 +68,8 @@ def canon(v, spans=False):
         return ('T',) + tuple(canon(x, spans) for x in v)
     if isinstance(v, dict):
         return ('D',) + tuple((canon(k, spans), canon(x, spans)) for k, x in v.items())
+    if callable(v):
+        return ('FN',)          # function values (inline Python) are compared as opaque
     return ('?', type(v).__name__, repr(v)[:60])
 
 
